@@ -338,13 +338,20 @@ def callback_classes(cb):
             cb.tick()
             return super().to_yaml(dumper, data)
     out['yobj'] = (LY, DY, YO)
+    # application classes live as long as the application: the state digest walks __subclasses__(), and a class that is
+    # garbage-collected in the middle of a later case would look like a change of library state
+    _KEEP.append(out)
     return out
+
+
+_KEEP = []
 
 
 def callback_cases(env, r, only=None):
     ctx = env.ctx
     cb = CB()
     cl = callback_classes(cb)
+    env.digest = confine.state_digest()          # the classes just defined are the application's doing
     doc = ''.join('- !c v%d\n- !m:s%d x\n- {k: !c w%d}\n' % (i, i, i) for i in range(12)) + '--- \n- !c second\n'
     jobs = []
     for base, L in cl.items():
